@@ -132,7 +132,9 @@ M('c18-capacity-gate-removed', 'C18', None, WS,
             self._messages.append(received_event)
 """, """            self._messages.append(received_event)
 """)
-M('c18-disconnect-bypasses-gate', 'C18', 'R3', WS,
+# (unbounded deque) appending the marker without waiting for room is lossless and keeps the order - seeded s4-c18-1 half 2
+# is harmless alone; what breaks here is that the append is not announced to a parked receiver (R1)
+M('c18-disconnect-bypasses-gate', 'C18', 'R1', WS,
   """                self.client_disconnected_code = received_event.get(
                     'code', WSCloseCode.NORMAL
                 )
@@ -150,6 +152,41 @@ M('c18-pump-continues-after-disconnect', 'C18', 'R3', WS,
   "        while not self.client_disconnected:\n            received_event", "        while True:\n            received_event")
 M('c18-disconnect-test-wrong-type', 'C18', 'R3', WS,
   "            if received_event['type'] == EventType.WS_DISCONNECT:", "            if received_event['type'] == EventType.WS_RECEIVE:", also=('C17',))
+
+# bounded container (seeded s4-c18-1 and variants).  Two cooperating edits: EACH half alone is harmless and must stay
+# silent (verified by hand with --root and with the seed's demo.py on a pure-Python copy): `deque(maxlen=capacity)` never
+# drops while every append follows a proof of a free slot; the marker skipping the capacity wait loses nothing while the
+# deque is unbounded.  Together the marker is appended to a full bounded deque and the oldest message is evicted.
+_DEQUE = "        self._messages = collections.deque()\n"
+_GATE = "            while len(self._messages) >= self._max_queue:\n"
+M2('c18-bounded-deque-marker-skips-gate', 'C18', 'R3', [
+    {'file': WS, 'old': _DEQUE, 'new': "        self._messages = collections.deque(maxlen=max_queue or None)\n"},
+    {'file': WS, 'old': _GATE, 'new': "            while (\n                len(self._messages) >= self._max_queue\n"
+                                      "                and not self.client_disconnected\n            ):\n"},
+])
+M2('c18-bounded-deque-gate-skipped-by-event-type', 'C18', 'R3', [
+    {'file': WS, 'old': _DEQUE, 'new': "        self._messages = collections.deque([], self._max_queue)\n"},
+    {'file': WS, 'old': _GATE, 'new': "            while len(self._messages) >= self._max_queue and received_event['type'] != EventType.WS_DISCONNECT:\n"},
+])
+M2('c18-bounded-deque-marker-appended-in-branch', 'C18', 'R3', [
+    {'file': WS, 'old': _DEQUE, 'new': "        self._messages = collections.deque(maxlen=max_queue if max_queue > 0 else None)\n"},
+    {'file': WS, 'old': """                self.client_disconnected_code = received_event.get(
+                    'code', WSCloseCode.NORMAL
+                )
+""", 'new': """                self.client_disconnected_code = received_event.get(
+                    'code', WSCloseCode.NORMAL
+                )
+                self._messages.append(received_event)
+                if self._pop_message_waiter is not None:
+                    self._pop_message_waiter.set_result(None)
+                    self._pop_message_waiter = None
+                break
+"""},
+])
+M2('c18-bounded-deque-if-for-while', 'C18', 'R3', [
+    {'file': WS, 'old': _DEQUE, 'new': "        self._messages = collections.deque(maxlen=max_queue or None)\n"},
+    {'file': WS, 'old': _GATE, 'new': "            if len(self._messages) >= self._max_queue:\n"},
+])
 
 # ------------------------------------------------------------------ R4
 M('c18-stop-after-validation', 'C18', 'R4', WS,
